@@ -78,7 +78,7 @@ class ConstraintProxy(object):
       # Inside a traced train step the observer cannot (and need not) look at
       # values; the world re-synchronises its reference state after fit().
       try:
-        self.on_call(self.name, self.real)
+        self.on_call(self.name, self.real, w, out)
       except Exception as e:  # pylint: disable=broad-except
         from .. import engine
         raise engine.HarnessError("constraint observer failed: %r" % (e,))
@@ -121,3 +121,84 @@ def max_abs(arrs):
     if a.size:
       m = max(m, float(np.max(np.abs(a))))
   return m
+
+
+class KflRef(object):
+  """Reference state machine for one KroneckerFactoredLattice layer.
+
+  The kernel is projected "increasing w.r.t. sign(scale)". `expected` is the
+  sign pattern the last kernel projection (or the initializer) saw. A strict
+  sign change of a scale entry relative to `expected` is *excused* when it was
+  caused by a raw write to scale (optimizer update, assignment, weight
+  restore) - that is the recorded known finding - and *not excused* when the
+  scale constraint itself flipped the sign, which the library promises never
+  to do.
+  """
+
+  def __init__(self, layer, fresh=True):
+    self.layer = layer
+    self.expected = self.sign_now() if fresh else None
+    self.excused = None
+    self.unexcused = None
+    self._reset_masks()
+
+  def sign_now(self):
+    return np.sign(self.layer.scale.numpy()).astype(np.int8)
+
+  def _reset_masks(self):
+    shape = tuple(int(d) for d in self.layer.scale.shape)
+    self.excused = np.zeros(shape, dtype=bool)
+    self.unexcused = np.zeros(shape, dtype=bool)
+
+  def on_kernel_projection(self, sign=None):
+    self.expected = self.sign_now() if sign is None else np.asarray(
+        sign, dtype=np.int8)
+    self._reset_masks()
+
+  def on_scale_constraint(self, pre, post):
+    """pre/post: scale values before and after its constraint."""
+    pre = np.sign(np.asarray(pre)).astype(np.int8)
+    post = np.sign(np.asarray(post)).astype(np.int8)
+    if self.expected is None:
+      return
+    # Changes that were already there before the constraint ran come from a
+    # raw write.
+    self.excused |= (pre * self.expected < 0) & ~self.unexcused
+    flipped_here = pre * post < 0
+    self.unexcused |= flipped_here
+    self.excused &= ~flipped_here
+
+  def end_of_event(self):
+    """Whatever differs now and was not pinned on a constraint is a raw write."""
+    if self.expected is None:
+      return
+    now = self.sign_now()
+    diff = now * self.expected < 0
+    self.excused |= diff & ~self.unexcused
+    self.excused &= diff
+    self.unexcused &= diff
+
+  def stale_units(self):
+    """Units whose sign changes are all explained by raw writes to scale."""
+    if self.expected is None:
+      return np.zeros(int(self.layer.scale.shape[0]), dtype=bool)
+    now = self.sign_now()
+    diff = now * self.expected < 0
+    return np.any(diff, axis=1) & ~np.any(diff & self.unexcused, axis=1)
+
+  def state(self):
+    return {
+        "expected": None if self.expected is None else self.expected.tolist(),
+        "excused": self.excused.tolist(),
+        "unexcused": self.unexcused.tolist(),
+    }
+
+  def restore(self, st):
+    if not st:
+      return
+    self.expected = (None if st.get("expected") is None else np.asarray(
+        st["expected"], dtype=np.int8))
+    shape = tuple(int(d) for d in self.layer.scale.shape)
+    for key in ("excused", "unexcused"):
+      arr = np.asarray(st.get(key, np.zeros(shape)), dtype=bool)
+      setattr(self, key, arr if arr.shape == shape else np.zeros(shape, bool))
